@@ -172,8 +172,11 @@ def run_case(spec):
         st, tape, idents, problems = run_once(plan_, nprod, nmsg, cycles, concurrent_stop, failmask)
         res["evals"] += 1
         c["schedules_run"] = c.get("schedules_run", 0) + 1
+        if st["deadlock"]:
+            problems.append("writer threads deadlocked: %s" % st["deadlock"])
+            res["violations"].append({"msg": problems[0], "mech": None, "detail": {"plan": plan_, "label": label}})
+            return st
         if st["aborted"]:
-            # a reader that exited early makes the controller's wait/join hang: judged as violation only through the history
             res["inconclusive"] = "schedule abandoned: %s" % st["aborted"]
             return st
         nw = judge(tape, idents, nprod, nmsg, cycles, failmask, problems)
